@@ -207,6 +207,10 @@ def rule_prereq(ctx):
     from . import C02
     C02.rule_R1_R2(R.Retag(ctx, "C02."))
     C12.rule_R10(R.Retag(ctx, "C12."))
+    # signatures are loaded under the tokens the extractor prints (C06.R1/R2), and a matcher exists whenever its protocol and matching are enabled (C20.R5)
+    from . import C06, C20
+    C06.rule_R1_R2(R.Retag(ctx, "C06."))
+    C20.rule_R5(R.Retag(ctx, "C20."))
 
 
 def rule_twins(ctx):
